@@ -402,6 +402,86 @@ def grid(ctx):
     ctx.sample({'kind': 'grid', 'cell': 'SE3:len1:arr3', 'model': outs[cells.index(('SE3', 1, 'arr3'))]})
 
 
+def uq_grid(ctx):
+    """the same exhaustive operand grid for UnitQuaternion * points: quaternion objects holding M = 1..5 values (a DIFFERENT
+    generic rotation per value) x {list, tuple, 1-D, row, column, 3 x N for N = 1..7}.  Every output column is compared
+    with the independent R_i p_j AND with the single-valued call U[i] * p_j; the column provenance and the exception
+    kind are compared with the dispatch model (dim 3), which the quaternion class shares with the poses (its result for a
+    single vector is 1-D, a shape the property does not state)."""
+    rng = ctx.rng
+    from lib.gens import rot_from_axis_angle
+    cells, terms = [], []
+    for M in range(1, 6):
+        for form in FORMS:
+            cells.append((M, form))
+            terms.append(f'dispatch {M} 3 {coq_form(form, 3)}')
+    header = "From Coq Require Import List Arith.\nFrom SM Require Import Model.C06_Dispatch.\nImport ListNotations.\n"
+    outs = ctx.coq_eval(header, terms, name='uqgrid')
+    reps = ctx.n(2, 10)
+    for (M, form), mo in zip(cells, outs):
+        model = parse_outcome(mo)
+        for rep in range(reps):
+            Rs = [rot_from_axis_angle(rand_unit(rng), rng.uniform(0.2, math.pi - 0.2) * rng.choice([-1.0, 1.0])) for _ in range(M)]
+            pts = rng.normal(size=(3, 7)) * log_uniform(rng, 1e-6, 1e6)
+            arg, ncol = make_arg(form, pts)
+            cell = f'UQ:len{M}:{form}'
+            site = ('single' if M == 1 else 'multi') + '-quaternion-x-' + ('vector' if ncol == 1 else 'array')
+            rep_in = {'class': 'UnitQuaternion', 'len': M, 'form': form, 'R_hex': [hexl(R) for R in Rs],
+                      'arg_hex': hexl(np.asarray(arg, float)), 'arg_shape': list(np.shape(arg))}
+            ctx.case(('uqgrid', cell, rep, tuple(pts[:, 0])))
+            ctx.count('uqgrid:cells')
+            singles = [UnitQuaternion(R) for R in Rs]
+            U = singles[0] if M == 1 else UnitQuaternion(singles)
+            try:
+                r = U * arg
+                obs = ('value', tuple(np.shape(r)), np.asarray(r, float))
+            except Exception as ex:  # noqa
+                obs = ('raise', type(ex).__name__, str(ex))
+            # ---- model (column provenance / exception kind) vs implementation
+            ctx.corr['cases'] += 1
+            if model[0] != obs[0] or (model[0] == 'raise' and model[1] != obs[1]):
+                ctx.corr['disagreements'] += 1
+                ctx.fail(f'corr:dispatch-UQ:{site}', f"dispatch model and UnitQuaternion.__mul__ disagree in cell {cell}: model {model[:2]}, "
+                         f"implementation {obs[:2]}" + (f": {obs[2]}" if obs[0] == 'raise' else ''), rep_in)
+            # ---- specification, independent of the model
+            if M > 1 and ncol >= 2 and ncol != M:
+                if obs[0] == 'value':
+                    ctx.fail(f'uqgrid:{site}:N-ne-len:returns-value', f"cell {cell}: {M} quaternions times a 3 x {ncol} array returned shape {obs[1]}", rep_in)
+                elif obs[1] != 'ValueError':
+                    ctx.fail(f'uqgrid:{site}:N-ne-len:raises-{obs[1]}', f"cell {cell}: raises {obs[1]}: {obs[2]}", rep_in)
+                continue
+            if obs[0] != 'value':
+                ctx.fail(f'uqgrid:{site}:raises-{obs[1]}', f"cell {cell}: a documented operand form raises {obs[1]}: {obs[2]}", rep_in)
+                continue
+            if M == 1:
+                pairs = [(0, j) for j in range(ncol)]
+            elif ncol == 1:
+                pairs = [(i, 0) for i in range(M)]
+            else:
+                pairs = [(i, i) for i in range(M)]
+            want = np.column_stack([Rs[i] @ pts[:, j] for i, j in pairs])
+            got = obs[2]
+            if got.size != want.size or not (got.shape == want.shape or want.shape[1] == 1):
+                ctx.fail(f'uqgrid:{site}:shape', f"cell {cell}: result shape {got.shape}, expected {want.shape}", rep_in)
+                continue
+            got2 = got.reshape(want.shape)
+            scale = float(np.max(np.linalg.norm(pts[:, :max(ncol, 1)], axis=0)))
+            err = float(np.max(np.abs(got2 - want)))
+            ctx.count('oracle:uqgrid-value')
+            ctx.stats['worst:uqgrid'] = max(ctx.stats.get('worst:uqgrid', 0.0), err / scale)
+            if not err <= REL * scale:
+                bad = int(np.argmax(np.max(np.abs(got2 - want), axis=0)))
+                ctx.fail(f'uqgrid:{site}:value', f"cell {cell}: output column {bad} is not R_{pairs[bad][0]} applied to point column {pairs[bad][1]} "
+                         f"(independent R p): error {err:g}, data magnitude {scale:g}", dict(rep_in, got=got.tolist(), want=want.tolist()))
+                continue
+            # per column against the single-valued call
+            for k, (i, j) in enumerate(pairs):
+                one = np.asarray(singles[i] * pts[:, j], float).flatten()
+                if not float(np.max(np.abs(got2[:, k] - one))) <= REL * scale:
+                    ctx.fail(f'uqgrid:{site}:differs-from-single-valued-call', f"cell {cell}: output column {k} differs from U[{i}] * p_{j}", dict(rep_in, column=k))
+                    break
+
+
 def model_vs_impl(ctx, cn, cell, site, model, obs, mats, pts, rep_in):
     """T-tab: the outcome the Coq model computes for this cell vs what the implementation does (exception kind, result
     shape, and for every output column WHICH pose value and WHICH point column it was computed from)"""
@@ -682,8 +762,31 @@ def oracle_multi(ctx):
         chk(f'{key}:compose:1xM', (Y1 * X) * p, np.column_stack([ref_apply(cn, Ym[0], ref_apply(cn, Xm[i], p)) for i in range(L)]), sc, rep)
         return Xm, p
 
+    def one_uq(it, L):
+        """multi-valued UnitQuaternion objects (a different generic rotation per value): products, inverse, quotient, per value"""
+        Rs = [generic_pose(rng, 'SO3', 1.0) for _ in range(L)]
+        Ss = [generic_pose(rng, 'SO3', 1.0) for _ in range(L)]
+        p = rng.normal(size=3) * log_uniform(rng, 1e-6, 1e6)
+        sc = float(np.linalg.norm(p))
+        U, V = UnitQuaternion([UnitQuaternion(R) for R in Rs]), UnitQuaternion([UnitQuaternion(S) for S in Ss])
+        rep = {'class': 'UnitQuaternion', 'len': L, 'R_hex': [hexl(R) for R in Rs], 'S_hex': [hexl(S) for S in Ss], 'p_hex': hexl(p)}
+        ctx.case(('oracle-multi', 'UQ', L, it, tuple(p)))
+        copies = np.tile(p.reshape(3, 1), (1, L))
+        chk('multi:UQ:point-is-Rp', U * p, np.column_stack([R @ p for R in Rs]), sc, rep)
+        chk('multi:UQ:compose:MxM', (U * V) * p, np.column_stack([Rs[i] @ Ss[i] @ p for i in range(L)]), sc, rep)
+        chk('multi:UQ:compose:Mx1', (U * V[0]) * p, np.column_stack([Rs[i] @ Ss[0] @ p for i in range(L)]), sc, rep)
+        chk('multi:UQ:compose:1xM', (V[0] * U) * p, np.column_stack([Ss[0] @ Rs[i] @ p for i in range(L)]), sc, rep)
+        chk('multi:UQ:inverse:(Uinv*U)*p', (U.inv() * U) * p, copies, sc, rep)
+        chk('multi:UQ:inverse:elementwise', np.column_stack([np.asarray(U.inv()[i] * (Rs[i] @ p), float).flatten() for i in range(L)]), copies, sc, rep)
+        chk('multi:UQ:div:(U/V)*p', (U / V) * p, np.column_stack([Rs[i] @ Ss[i].T @ p for i in range(L)]), sc, rep)
+
     last = None
     for it in range(N):
+        try:
+            one_uq(it, 2 + (it % 4))
+        except Exception as ex:  # noqa
+            ctx.fail(f'oracle:multi:UQ:raises-{type(ex).__name__}', f"evaluating the multi-valued UnitQuaternion laws (length {2 + (it % 4)}) raises "
+                     f"{type(ex).__name__}: {ex}", {'class': 'UnitQuaternion', 'len': 2 + (it % 4), 'iteration': it, 'seed': ctx.seed})
         for cn, (cls, d, isse) in CLASSES.items():
             L = 2 + (it % 4)
             try:
@@ -859,6 +962,7 @@ def run(ctx):
                 ctx.fail('corr:harness', f"Sym==Num correspondence could not run: {type(ex).__name__}: {str(ex)[-600:]}", no_input=True)
     with ctx.timed('grid'):
         grid(ctx)
+        uq_grid(ctx)
     with ctx.timed('oracle'):
         oracle(ctx)
     with ctx.timed('oracle-multi'):
